@@ -19,6 +19,7 @@ UNIT_TRUST = {
     "subscriber": [IMBL, BCAST, TASK, RBOX, STD, "R-PIN: self: Pin<&mut Self> => &mut self", "R-BREAKVAL: loop-with-break-value desugared", "vstd specs for Vec, vec::IntoIter (remaining() is prophetic), Option, mem::replace, unreachable_unchecked (requires false)"],
     "transaction": [IMBL, BCAST, STD, "R-MUTSELF: `fn commit(mut self)` => `fn commit(self) { let mut this = self; … }` (Verus has no `mut self`)", "R-PANIC on insert/set/remove/entry", "R-TRAIT: Drop::drop / Deref::deref of the entry types verified as inherent methods (a trait method cannot carry a precondition)", "vstd specs for Vec (push, clear, is_empty), mem::take (assume_specification)"],
     "entry": [IMBL, BCAST, STD, "R-TRAIT: Drop::drop / Deref::deref verified as inherent methods", "ObservableVector::set/remove appear with the clauses proved in unit `vector`"],
+    "ops": [ITERS, SMALLVEC, "prelude/vecseq.rs: Vec stand-in (into_iter, is_empty, vec![x]) and SeqIt::flat_map / filter_map: the closure is applied to every item in order, results concatenated — ASSUMED", "R-TRAIT: `impl VectorDiffContainerOps<T> for X` methods verified as associated functions (receiver => parameter `this`), associated types replaced by the impl's own `type … = …;` lines", "R-WILD: `_` fn parameters named"],
     "esub": [TASK, "prelude/state_view.rs: caller view of state.rs (&self receivers): the contracts proved in unit `state` with the final(self) clauses dropped and `registered(state, waker)` for the waker-list clause; readlock::SharedReadLock/SharedReadGuard transparent (cur()/target()) — TRUSTED TO MATCH unit state", "R-INST: L = SyncLock"],
     "shared": ["prelude/arc.rs: Arc/Weak as counted handles with DerefMut (R-LOCK: sequential execution; aliasing between handles not modelled) — ASSUMED", "prelude/rwlock_handles.rs: RwLock::read/write hand out &mut to the protected state (R-LOCK)", "state.rs functions appear with exactly the contracts proved in unit `state` (//@viewof)", "R-LOCK: &self receivers of the setters/getters => &mut self; R-INST: L = SyncLock; R-TRAIT: Drop as inherent method", "try_read/try_write not under contract; SUBSCRIBER_REFS = 1 copied by hand from lock.rs"],
     "unique": ["readlock::Shared stand-in (owns the state, counted read locks, DerefMut under R-LOCK) — ASSUMED", "state.rs functions with the contracts proved in unit `state` (//@viewof)", "R-LOCK: `this: &Self` of subscribe => `&mut Self`; R-INST: L = SyncLock; R-TRAIT: Drop as inherent method", "into_shared (ptr::read + mem::forget) is outside Verus: Kani + bounded"],
@@ -68,7 +69,7 @@ PROPS = {
         "Verus proves: both streams return None only if the channel is closed, the receiver did not lag and nothing is queued; closed with a non-empty queue still delivers; handle_lag on a closed channel returns the final state (the repaired F1).",
         "wake-on-drop is tokio's Sender::drop (bounded check with a flag waker)",
         VERUS + "; " + BND, [BOUNDED_NOTE]),
-    "C09": P("proof", ["head", "tail", "skip"], ["hts"],
+    "C09": P("proof", ["head", "tail", "skip", "ops"], ["hts"],
         "Verus discharges, for all element types, lengths, limits and indices, one obligation per (function, diff variant): handle_diff of Head/Tail/Skip turns an emittable source diff into diffs that are applicable to the old view and rebuild exactly the new view; update_limit/update_count rebuild the view under the new parameter; constructors return the initial view. The poll_next glue is bounded.",
         "prelude stand-ins for imbl/SmallVec/ArrayVec/iterators are assumed contracts; " + GLUE + "; F6 (tail limit decrease from beyond the length) is a known finding",
         VERUS + "; " + BND + " (poll_next glue)", [GLUE]),
@@ -84,15 +85,15 @@ PROPS = {
         "Verus proves the hand-over functions: into_parts of Head/Tail/Skip returns the current view (not the internal copy), VectorSubscriber::into_values_and_*stream return snapshot + stream, and every diff a stage emits is emittable on the view rebuilt so far (what the next stage's precondition asks for). Chains of 2 and 3 adapters with taps are bounded.",
         "stand-ins assumed; chains are bounded; F6 known",
         VERUS + " (hand-over functions); " + BND + " (chains)", [GLUE]),
-    "C13": P("proof", ["subscriber", "tail", "skip"], ["hts", "filter", "sort", "chains"],
-        "So far: Verus proves the batched subscriber stream yields whole messages and never an empty batch, and that update_limit/update_count of Tail/Skip never return an empty batch. The containers of ops.rs and the adapters are bounded: after every emitted batch the rebuilt view is the adapter's view of a top-level source state.",
-        "ops.rs container contracts pending; adapters bounded",
-        VERUS + " (batched subscriber, update_*); " + BND, [BOUNDED_NOTE]),
+    "C13": P("proof", ["ops", "subscriber", "tail", "skip"], ["hts", "filter", "sort", "chains"],
+        "Verus proves both containers of ops.rs. Batched (`Vec<VectorDiff<T>>`): filter_map and push_into_{head,tail,skip,sort}_buf return None iff the mapped result is empty and otherwise ONE Vec holding the mapped diffs of every diff of this input batch, in order (flat_map / filter_map stand-ins, closure via call_ensures); extend_*_buf likewise; pop_from_*_buf always None, so a batch is never split. Single-diff (`VectorDiff<T>`): the returned diff followed by the buffer is the old buffer followed by the mapped diffs (first in, first out). Also: the batched subscriber stream yields whole messages and never an empty batch; update_limit/update_count of Tail/Skip never return an empty batch. The adapters' poll_next glue is bounded: after every emitted batch the rebuilt view is the adapter's view of a top-level source state.",
+        "iterator adapters (flat_map, filter_map, rev, collect, insert_many) are assumed contracts; R-TRAIT: the trait methods are verified as associated functions with the receiver as a parameter; adapters bounded",
+        VERUS + " (ops.rs containers, batched subscriber, update_*); " + BND, [BOUNDED_NOTE]),
     "C14": P("proof", ["subscriber"], ["sub", "hts", "filter", "sort", "chains"],
         "Verus proves for both subscriber streams: every return path re-arms the receive future (struct invariant `wf`), and Pending is returned only as the result of polling the armed future with the caller's context, which (channel contract) registered that waker. Adapters are bounded: flag waker checked around every single operation.",
         "waker registration by a pending recv is tokio's (assumed); adapters bounded, single-threaded",
         VERUS + " (subscriber streams); " + BND + " (adapters)", [BOUNDED_NOTE]),
-    "C15": P("proof", ["head", "tail"], ["hts"],
+    "C15": P("proof", ["head", "tail", "ops"], ["hts"],
         "Verus proves per diff variant that every prefix of the diffs handle_diff emits keeps the Head/Tail view within the limit (prefixes_bounded, proved equivalent to the for-all-prefixes statement), and that the constructors' initial values respect the bound. The glue is bounded (length checked after every single diff).",
         "stand-ins assumed; " + GLUE,
         VERUS + "; " + BND + " (glue)", [GLUE]),
